@@ -20,7 +20,7 @@ the simulated server calls `next` `reads` times (None: to the end) and `close()`
 R-plans (`'k': 'r'`) - a site of pages whose handlers raise `InternalRedirect` by rule, a start URL with or without
 query string:
 
-    {'k': 'r', 'meth': 'get'|'post', 'tb': 0|1, 'start': [path, qs], 'reads': None|m, 'closes': n,
+    {'k': 'r', 'meth': 'get'|'post', 'tb': 0|1, 'sn': ''|'/app' (mount point), 'start': [path, qs], 'reads': None|m, 'closes': n,
      'pages': {path: [[COND, TARGET_PATH_ARG, TARGET_QS_ARG], ...]}}      # first matching rule fires
     COND = always | q (the request has a query string) | noq | v<k> (fewer than k requests so far)
     TARGET_PATH_ARG: absolute ('/b'), relative ('b', ''), may carry '?query'; '{q}' in a query = the current query
@@ -304,7 +304,7 @@ def build_app(plan):
     if plan['k'] == 'b':
         key = ('b', plan['tb'], plan['stream'], tuple(plan['tools']), plan.get('ep'))
     else:
-        key = ('r', plan['tb'])
+        key = ('r', plan['tb'], plan.get('sn', ''))
     app = _apps.get(key)
     if app is not None:
         return app
@@ -327,7 +327,7 @@ def build_app(plan):
                 sec['tools.etags.autotags'] = True
             else:
                 raise common.HarnessError('bad tool %r' % t)
-    app = cherrypy.Application(Root(), '', {'/': sec})
+    app = cherrypy.Application(Root(), plan.get('sn', '') if plan['k'] == 'r' else '', {'/': sec})
     app.request_class = BRequest
     _apps[key] = app
     return app
@@ -340,7 +340,8 @@ def build_environ(plan):
         path, qs = plan['start']
     meth = plan['meth'].upper()
     env = {
-        'REQUEST_METHOD': meth, 'SCRIPT_NAME': '', 'PATH_INFO': path, 'QUERY_STRING': qs,
+        'REQUEST_METHOD': meth, 'SCRIPT_NAME': plan.get('sn', '') if plan['k'] == 'r' else '', 'PATH_INFO': path,
+        'QUERY_STRING': qs,
         'SERVER_NAME': 'localhost', 'SERVER_PORT': '80', 'SERVER_PROTOCOL': 'HTTP/1.1', 'HTTP_HOST': 'localhost',
         'wsgi.version': (1, 0), 'wsgi.url_scheme': 'http', 'wsgi.input': io.BytesIO(b''),
         'wsgi.errors': sys.stderr, 'wsgi.multithread': False, 'wsgi.multiprocess': False, 'wsgi.run_once': False,
@@ -503,8 +504,8 @@ def plan_line(plan):
                          b['shape'], tok(b['items']), str(b['end']), b['close'], plan['tamper'][0], plan['tamper'][1],
                          opt(plan['reads']), str(plan['closes'])]
                         + (['ep=%s' % plan['ep']] if plan.get('ep') else []) + (['tools=%s' % '+'.join(plan['tools'])] if plan['tools'] else []))
-    out = ['R', plan['meth'], str(plan['tb']), plan['start'][0], tok(plan['start'][1]), opt(plan['reads']),
-           str(plan['closes'])]
+    out = ['R', plan['meth'], str(plan['tb']), tok(plan.get('sn', '')), plan['start'][0], tok(plan['start'][1]),
+           opt(plan['reads']), str(plan['closes'])]
     for path in sorted(plan['pages']):
         rules = plan['pages'][path]
         out.append('|')
@@ -674,8 +675,10 @@ def gen_b_plan(rng):
                   closes=rng.choices([1, 2, 3, 0], weights=[55, 25, 8, 12])[0])
 
 
-def r_plan(start, pages, meth='get', tb=0, reads=None, closes=1):
-    return {'k': 'r', 'meth': meth, 'tb': tb, 'start': list(start), 'reads': reads, 'closes': closes, 'pages': pages}
+def r_plan(start, pages, meth='get', tb=0, reads=None, closes=1, sn=''):
+    # sn: the mount point of the application (SCRIPT_NAME); part of the keys the redirector records and compares
+    return {'k': 'r', 'meth': meth, 'tb': tb, 'sn': sn, 'start': list(start), 'reads': reads, 'closes': closes,
+            'pages': pages}
 
 
 QSS = ['', 'x=1', 'x=2', 'next=/a', 'a=1&b=2']
@@ -713,6 +716,13 @@ def grid_r_plans(quick):
             plans.append(r_plan(('/d/a', sq), {'/d/a': [[A, 'b?x=1', '']], '/d/b': [[A, 'a', '']]}, tb=tb))
             plans.append(r_plan(('/d/a', sq), {'/d/a': [[A, 'b?x=1', '']], '/d/b': [[A, 'b?x=1', '']]}, tb=tb))
             plans.append(r_plan(('/d/', sq), {'/d/': [[A, 'a?x=1', '']], '/d/a': [[A, '/d/?x=1', '']]}, tb=tb))
+    # the same loops in an application mounted below a script name
+    for sn in ('/app', '/x/y'):
+        for sq in ('', 'x=1'):
+            for tgt in ('/a', '/a?x=1', 'a?x=1', '?x=1', '/a?{q}'):
+                plans.append(r_plan(('/a', sq), {'/a': [[A, tgt, '']]}, sn=sn))
+            plans.append(r_plan(('/a', sq), {'/a': [[A, '/b?x=1', '']], '/b': [[A, '/a?x=1', '']]}, sn=sn))
+            plans.append(r_plan(('/a', sq), {'/a': [['v3', '/a?n={n}', '']]}, sn=sn))
     for meth in ('post',):
         plans.append(r_plan(('/a', 'x=1'), {'/a': [[A, '/a?x=1', '']]}, meth=meth))
         plans.append(r_plan(('/a', ''), {'/a': [[A, '/b?x=1', '']], '/b': [[A, '/b?x=1', '']]}, meth=meth))
@@ -747,7 +757,7 @@ def gen_r_plan(rng):
                 rules.append([cond, tgt, q])
         pages[p] = rules
     start = rng.choice(paths) if rng.random() < 0.95 else '/nosuch'
-    return r_plan((start, rng.choice(['', '', 'x=1', 'x=2', 'a=1&b=2'])), pages,
+    return r_plan((start, rng.choice(['', '', 'x=1', 'x=2', 'a=1&b=2'])), pages, sn=rng.choice(['', '', '/app', '/x/y']),
                   meth=rng.choices(['get', 'post', 'head'], weights=[75, 15, 10])[0], tb=rng.choice([0, 1]),
                   reads=rng.choices([None, 0, 1], weights=[75, 12, 13])[0], closes=rng.choices([1, 2, 0], weights=[75, 15, 10])[0])
 
@@ -792,8 +802,8 @@ def shrink(plan, still_fails):
                 cand['body']['end'] = 0
                 changed |= attempt(cand)
         else:
-            for key, dflt in (('meth', 'get'), ('closes', 1), ('reads', None)):
-                if cur[key] != dflt:
+            for key, dflt in (('meth', 'get'), ('closes', 1), ('reads', None), ('sn', '')):
+                if cur.get(key, dflt) != dflt:
                     cand = copy.deepcopy(cur)
                     cand[key] = dflt
                     changed |= attempt(cand)
